@@ -903,6 +903,9 @@ func c17(c *core.Ctx) {
 	c.Run("merkle-nodes-fresh", func() { c17MerkleNodesFresh(c) })
 	c.Run("proof-walker-prefix", func() { c17ProofWalkerPrefix(c) })
 
+	c.Clause("C17.11", "a root names one content whatever other trie values were derived from the same nodes: in package store/trie every store into an element of fullNode.Children goes to a node made in that function (fullNode.copy() or a new node)")
+	c.Run("branch-writes-on-copies", func() { c17BranchWritesOnCopies(c) })
+
 	c.NotDecidedf("the root as a function of the key/value SET (independence from insertion order, from commits and from cache eviction): a mutant inside Trie.insert / Trie.delete, hasher.hash or hasher.hashChildren is NOT detected")
 	c.NotDecidedf("proof soundness (merkle.FindSiblingNodes / merkle.Verify) and the Merkle tree shape incl. the odd-tail rule: a mutant inside merkle.calculateNodes is NOT detected")
 	c.NotDecidedf("that the element hashes cover all fields (C02.2, C04.1, C14.2 decide that), collision resistance of Keccak, RLP canonicity of node encodings")
